@@ -118,11 +118,7 @@ class Site:
         self.accept_is_body, self.strict_ok = accept_is_body, strict_ok
 
 
-def find_sites(ref: FnRef) -> List[Site]:
-    out = []
-    R = Resolver(ref.fn)
-    for n in ast.walk(ref.fn):
-        test = n.test if isinstance(n, ast.If) else None
+def _site_of(ref: FnRef, n: ast.If, test: ast.AST, R: Resolver, out: List["Site"]) -> None:
         # a test bound to a local first (`rejected = rate <= draw; if rejected:` / `if not rejected:`) is the same test
         negated = False
         if isinstance(test, ast.UnaryOp) and isinstance(test.op, ast.Not):
@@ -132,7 +128,7 @@ def find_sites(ref: FnRef) -> List[Site]:
         if isinstance(test, ast.UnaryOp) and isinstance(test.op, ast.Not):
             test, negated = test.operand, not negated
         if not (isinstance(test, ast.Compare) and len(test.ops) == 1):
-            continue
+            return
         # the draw may have been bound to a local (`threshold = uniform(0, B)`): resolve single-assignment locals
         l, r, op = R.res(test.left), R.res(test.comparators[0]), test.ops[0]
         if negated:
@@ -151,6 +147,26 @@ def find_sites(ref: FnRef) -> List[Site]:
                 out.append(Site(ref, n, kind, low, b, l, True, isinstance(op, ast.Gt)))  # R > U*B : accept
             elif isinstance(op, (ast.Lt, ast.LtE)):
                 out.append(Site(ref, n, kind, low, b, l, False, isinstance(op, ast.LtE)))  # R <= U*B : reject
+
+
+def find_sites(ref: FnRef) -> List[Site]:
+    out = []
+    R = Resolver(ref.fn)
+    for n in ast.walk(ref.fn):
+        whole = n.test if isinstance(n, ast.If) else None
+        if whole is None:
+            continue
+        # `if a and <accepting comparison>: ...` -- the body runs only when the draw accepts; `if a or <rejecting comparison>: leave`
+        # -- what follows runs only when the draw accepts.  The other combinations give no guard and are not confirmation sites.
+        if isinstance(whole, ast.BoolOp):
+            cands = [(v, "and" if isinstance(whole.op, ast.And) else "or") for v in whole.values]
+        else:
+            cands = [(whole, "")]
+        for test, mode in cands:
+            before = len(out)
+            _site_of(ref, n, test, R, out)
+            if len(out) > before and ((mode == "and" and not out[-1].accept_is_body) or (mode == "or" and out[-1].accept_is_body)):
+                out.pop()
     return out
 
 
